@@ -741,6 +741,10 @@ func init() {
 			c12hReplay(cfg.Arg, rep)
 			return []*Report{rep}
 		}
+		if strings.HasPrefix(cfg.Arg, "pos=") {
+			c12eReplay(cfg.Arg, rep)
+			return []*Report{rep}
+		}
 		if cfg.Arg != "" {
 			sig, call, err := c12ParseCase(cfg.Arg)
 			if err != nil {
@@ -770,9 +774,10 @@ func init() {
 			"Every case reaches evalCallExpression's Go-function branch; about 9%% (quick) / 5%% (thorough) of the pairs are valid calls (tag want:invoked), about 1%% are left unchecked because the statement is silent, the rest must be rejected. non-trivial = signature or call has at least one parameter/argument; distinct by case text.",
 			len(fixed), fixedFull, map[bool]string{true: "; plus all 27 lists of length 3 over int, string, interface{}", false: ""}[cfg.Thorough()],
 			len(argSeqs), maxArgs, map[bool]string{true: " (C) random pairs from the larger space: fixed lists of length 3 over all 6 types x argument lists of length 0..5.", false: ""}[cfg.Thorough()])
-		rep.Rule += c12hRule
+		rep.Rule += c12hRule + c12eRule
 		rep.Exhaustive = true
 		rep.Notes = append(rep.Notes, c12hNotes...)
+		rep.Notes = append(rep.Notes, c12eNotes...)
 		rep.Notes = append(rep.Notes,
 			"Unchecked (statement silent), tagged unchecked:*: fewer arguments than fixed parameters when the missing parameter is not a trailing options map / helper context (non-variadic: more missing than the auto-suppliable suffix; variadic: fewer arguments than fixed parameters). Panics there are C04's business.",
 			"An options map is recognised as map[string]interface{} in last position, or in second-to-last position before a helper context. nil / empty maps and slices are not distinguished (the statement says 'zero value' for nil and 'supplied' for the options map).",
@@ -833,6 +838,8 @@ func init() {
 		}
 		// (D) call histories and nested calls (oracle_c12_hist.go)
 		c12hStage(cfg, rep)
+		// (E) result handling in every position of a program (oracle_c12_pos.go)
+		c12eStage(cfg, rep)
 		// (C) random pairs from the larger space
 		if cfg.Thorough() {
 			r := NewRng(cfg.Seed).Fork(12)
